@@ -526,6 +526,48 @@ def ob_switch(use_tip_states, which):
     return Ob("C03.switch.%s[tip_states=%s]" % (which, use_tip_states), "B", body, clause="finite whenever the true value is finite (real underflow, bounded)", funcs=FUNCS, timeout=900)
 
 
+def ob_switch_mixed_shaped(shape, T, bls, use_tip_states=False, columns="alternating"):
+    """a batch of branch-length samples on a LARGE tree in which the first sample is healthy (saturated branches: its partials decay slowly)
+    and a later one has already underflowed to exact zeros deep in the tree when the first sample first asks for rescaling: every sample of
+    the switching evaluation and of the next one is finite and equals its own always-rescaled single-sample evaluation"""
+    def body():
+        torch.set_num_threads(1)
+        # 'constant': one invariable column - with short branches its likelihood stays near 0.25 however large the tree (a sample that never needs
+        # rescaling), with saturated branches it is 0.25 per tip (a sample that underflows)
+        cols = [lambda i: "A"] if columns == "constant" else [lambda i: "ACGT"[i % 4], lambda i: "ACGT"[(i // 3) % 4]]
+        m = _shaped_model(shape, T, cols, bls[0], False, use_tip_states)
+        treemodels.tree_parameter(m.tree_model).tensor = torch.stack([torch.full((2 * T - 3,), float(b), dtype=torch.float64) for b in bls])
+        ref = []
+        for b in bls:
+            ref.append(float(_shaped_model(shape, T, cols, b, True, use_tip_states)._call().reshape(-1)[0]))
+        bad = []
+        for which in ("first (switching)", "second"):
+            try:
+                v = m._call().reshape(-1)
+            except Exception as e:
+                bad.append({"evaluation": which, "raised": "%s: %s" % (type(e).__name__, str(e)[:120])})
+                break
+            for k in range(len(bls)):
+                x = float(v[k])
+                if not (x == x and abs(x) != float("inf")) or abs(x - ref[k]) > 1e-8 * abs(ref[k]):
+                    bad.append({"evaluation": which, "sample": k, "branch_length": bls[k], "returned": x, "reference": ref[k]})
+        if bad:
+            raise Refuted("switch to rescaling on a %s tree of %d taxa, branch-length samples %s (tip_states=%s): %s" % (shape, T, bls, use_tip_states, bad[:2]),
+                          witness={"shape": shape, "T": T, "samples": bls, "bad": bad[:4]}, confirmed=True,
+                          replay={"kind": "custom", "contract": "C03", "func": "replay_switch_mixed_shaped", "args": {"shape": shape, "T": T, "bls": bls, "tip_states": use_tip_states, "columns": columns}})
+        return {"backend": "concrete", "cases": 2 * len(bls), "statement": "%s tree, %d taxa, samples %s: finite and equal to the rescaled single-sample reference on the switching and on the next evaluation" % (shape, T, bls)}
+    return Ob("C03.switch.mixed.%s[T=%d,samples=%s,%s column,tip_states=%s]" % (shape, T, bls, columns, use_tip_states), "B", body,
+              clause="finite whenever the true value is finite (a batch in which a later sample has underflowed before the first asks for rescaling, bounded)", funcs=FUNCS, timeout=900)
+
+
+def replay_switch_mixed_shaped(args):
+    try:
+        ob_switch_mixed_shaped(args["shape"], int(args["T"]), list(args["bls"]), bool(args.get("tip_states", False)), args.get("columns", "alternating")).fn()
+    except Refuted as e:
+        return False, e.detail
+    return True, "held"
+
+
 def _shaped_model(shape, T, columns, bl, rescale, use_tip_states=False):
     """JC69 model on a caterpillar or balanced tree of T taxa; columns: list of functions i -> symbol; bl: branch length (all branches)"""
     from torchtree.core.parameter import Parameter
@@ -714,4 +756,8 @@ def obligations(tier, seed):
         for ts in (False, True):
             obs.append(ob_switch_shaped(name, ts))
     obs.append(ob_guard())
+    for shape_, T_, bls_ in (("balanced", 2048, [10.0, 0.01]), ("balanced", 2048, [10.0, 0.01, 0.3]), ("caterpillar", 1500, [10.0, 0.02])):
+        obs.append(ob_switch_mixed_shaped(shape_, T_, bls_))
+    for shape_, T_, bls_ in (("balanced", 2048, [0.001, 10.0]), ("balanced", 2048, [0.001, 10.0, 0.001]), ("caterpillar", 1500, [0.001, 10.0])):
+        obs.append(ob_switch_mixed_shaped(shape_, T_, bls_, False, "constant"))
     return obs
